@@ -110,4 +110,33 @@ def View.dervaWStr (v : View) (a : Addr) : Out Ref :=
       | none => .err .encoding)
   | .err e => .err e | .panic s => .panic s | .ub s => .ub s | .diverge => .diverge
 
+
+/-! ### `derva_slice_f` / `deref_slice_f` with a STATEFUL callable (`F: FnMut(&T) -> bool`)
+
+The loop of pe.rs:346-367 calls `f` exactly once per element, in index order, starting with element 0
+and stopping at the first `true`.  So the answer of a callable with internal state (a counter, the
+previous elements it has seen, …) on its call for element `len` is a function of `len` and of the
+bytes: the model hands the index to the predicate as well.  `sliceFLoop` / `View.dervaSliceF` above
+are the special case of a predicate that ignores the index (`sliceFLoop_eq_I`, Lemmas/Typed.lean). -/
+
+/-- the loop of `derva_slice_f` for a callable whose answer may depend on the call number -/
+-- src: pe.rs:derva_slice_f / deref_slice_f (the loop)
+def sliceFLoopI (b : Bytes) (off blen size : Nat) (stop : Nat → Nat → Bool) (fuel : Nat) (len : Nat) : Out Nat :=
+  match fuel with
+  | 0 => .diverge
+  | fuel+1 =>
+    let offset := len * size
+    if offset + size > blen then .err .bounds            -- "Safety critical OOB check"
+    else if stop len (leN b (off + offset) size) then .ok len
+    else sliceFLoopI b off blen size stop fuel (len + 1)
+
+-- src: pe.rs:derva_slice_f / deref_slice_f   (`stop i x` = the answer of the `i`-th call, made on element `i` of value `x`)
+def View.dervaSliceFI (v : View) (a : Addr) (size align : Nat) (stop : Nat → Nat → Bool) : Out Ref :=
+  match v.at a 0 align with
+  | .ok r =>
+    (match sliceFLoopI v.b r.off r.len size stop (r.len + 2) 0 with
+     | .ok n => .ok ⟨r.off, n * size, align⟩
+     | .err e => .err e | .panic s => .panic s | .ub s => .ub s | .diverge => .diverge)
+  | .err e => .err e | .panic s => .panic s | .ub s => .ub s | .diverge => .diverge
+
 end Pelite.Pe
